@@ -365,6 +365,219 @@ def multi(st, case, wd, res):
     res["keys"].add(sha(json.dumps([case["content"], case["sizes"], case["cseed"], o], sort_keys=True).encode()))
     res["stats"]["multi_files"] += len(names)
 
+
+# ------------------------------------------------------------------ (a) sparse writer: model == real static functions
+SP_SIZES = [0, 1, 2, 3, 5, 7, 8, 9, 15, 16, 17, 23, 24, 64, 4096, 32760, 32767, 32768, 32769, 32775, 32776, 32777, 65535, 65536, 65537, 65543, 98304, 98311, 131072]
+
+def sp_buffer(rng, big_ok=True):
+    """one decoded block as handed to LZ4IO_fwriteSparse, aimed at the word (8) / segment (32 KB) / remainder splits"""
+    n = rng.choice(SP_SIZES + [rng.randrange(0, 70000), rng.randrange(0, 300)])
+    if big_ok and rng.random() < 0.04:
+        n = rng.choice([262144, 262147, 1 << 20, (1 << 20) + 5])
+    shape = rng.choice(["zero", "zero", "one", "one", "fewnz", "runs", "dense", "ztail", "zhead", "wordedge"])
+    b = bytearray(n)
+    if n == 0:
+        return bytes(b), shape
+    if shape == "one":
+        cands = [0, n - 1, n // 8 * 8 - 1, n // 8 * 8, n // 8 * 8 + 1, 32767, 32768, 32769, 32760, 32775, 65535, 65536, rng.randrange(n)]
+        k = rng.choice([c for c in cands if 0 <= c < n])
+        b[k] = rng.randrange(1, 256)
+    elif shape == "fewnz":
+        for _ in range(rng.choice([2, 3, 5])):
+            b[rng.randrange(n)] = rng.randrange(1, 256)
+    elif shape == "runs":
+        i = 0
+        while i < n:
+            z = rng.choice([1, 7, 8, 9, 16, 100, 4096, 32768, 32776, 40000])
+            i += z
+            d = rng.choice([1, 1, 7, 8, 9, 100])
+            for j in range(i, min(n, i + d)):
+                b[j] = rng.randrange(1, 256)
+            i += d
+    elif shape == "dense":
+        b = bytearray(rng.randbytes(n))
+        if rng.random() < 0.5:
+            for _ in range(3):
+                k = rng.randrange(n); l = rng.choice([8, 16, 24, 4096])
+                b[k:k + l] = bytes(min(l, n - k))
+    elif shape == "ztail":
+        k = rng.choice([1, 7, 8, 9, 15, 16, n // 2, n % 8 or 8, n % 8 + 8])
+        k = min(k, n)
+        b = bytearray(rng.randbytes(n - k)) + bytearray(k)
+    elif shape == "zhead":
+        k = min(n, rng.choice([1, 7, 8, 9, 16, 32768, 32769, n - 1, n // 8 * 8]))
+        b = bytearray(k) + bytearray(x | 1 for x in rng.randbytes(n - k))
+    elif shape == "wordedge":
+        # zero run ending exactly at a word / segment boundary
+        e = rng.choice([8, 16, 32768, 65536, n // 8 * 8]); e = min(e, n)
+        b = bytearray(e) + bytearray(x | 1 for x in rng.randbytes(n - e))
+    return bytes(b), shape
+
+def zero_check(fd, a, b):
+    """bytes [a,b) of the file are zero; holes are skipped with SEEK_DATA/SEEK_HOLE when the file system supports it"""
+    pos = a
+    while pos < b:
+        try:
+            d = os.lseek(fd, pos, os.SEEK_DATA)
+        except OSError:
+            return True        # ENXIO: no data beyond pos
+        if d >= b:
+            return True
+        try:
+            h = os.lseek(fd, d, os.SEEK_HOLE)
+        except OSError:
+            h = b
+        e = min(h, b)
+        while d < e:
+            chunk = os.pread(fd, min(e - d, 1 << 24), d)
+            if not chunk:
+                return False
+            if chunk.count(0) != len(chunk):
+                return False
+            d += len(chunk)
+        pos = e
+    return True
+
+def parse_trace(t):
+    """-> list of ("S", n) | ("W", bytes) | ("R", n)"""
+    out, p = [], 0
+    while p < len(t):
+        k = chr(t[p]); p += 1
+        v = struct.unpack_from("<Q", t, p)[0]; p += 8
+        if k == "W":
+            out.append(("W", t[p:p + v])); p += v
+        elif k in "SR":
+            out.append((k, v))
+        else:
+            out.append(("?", v))
+    return out
+
+def sparse_one(st, rng, wd, res, big=False):
+    cli = cli_oracle(st)
+    support = rng.choice([1, 1, 1, 2, 2, 0])
+    use_stdout = 1 if rng.random() < 0.2 else 0
+    sparse_mode = (support - use_stdout) > 0
+    ov0 = 0
+    if sparse_mode:
+        ov0 = rng.choice([0, 0, 0, 1, 7, 8, 100000])
+        if big:
+            ov0 = rng.choice([GB - 40000, GB - 8, GB, GB + 1, GB + 5, 2 * GB - 70000, 2 * GB])
+    frames = []
+    nframes = rng.choice([1, 1, 1, 2, 3])
+    for _ in range(nframes):
+        bufs = []
+        for _ in range(rng.choice([1, 2, 3, 4, 6])):
+            b, shape = sp_buffer(rng, big_ok=not big)
+            if big and rng.random() < 0.6:
+                b, shape = bytes(rng.choice([65536, 32768, 40001])), "zero"
+            bufs.append(b); res["stats"]["sp_" + shape] += 1
+        if rng.random() < 0.35:
+            bufs.append(bytes(rng.choice([1, 5, 8, 13, 32768, 32771])))          # all-zero last buffer
+        frames.append(bufs)
+    # script for the real code
+    script = bytearray()
+    first = True
+    for fi, bufs in enumerate(frames):
+        if fi > 0:
+            script += struct.pack("<I", 0xFFFFFFFF)
+        for b in bufs:
+            script += struct.pack("<IBI", len(b), 1 if (first and ov0) else 0, ov0 & 0xFFFFFFFF) + b
+            first = False
+    sf, tf, of = os.path.join(wd, "script"), os.path.join(wd, "trace"), os.path.join(wd, "out")
+    wr(sf, bytes(script))
+    rc, _, err = run([st["ctx"]["drv"], "sparse", of, sf, tf, str(support), str(use_stdout)])
+    det = {"support": support, "stdout": use_stdout, "ov0": ov0, "frames": [[b.hex() if len(b) <= 64 else "len=%d sha=%s" % (len(b), sha(b)) for b in bufs] for bufs in frames]}
+    if rc != 0:
+        fail(res, "prop_fail", "LZ4IO_fwriteSparse driver exits %d: %s" % (rc, err[-200:]), det)
+        return
+    real = parse_trace(rd(tf))
+    # model, call by call
+    model = []
+    skips = 0
+    first = True
+    nz_skipped = False
+    for fi, bufs in enumerate(frames):
+        if fi > 0:
+            r = cli.ask("fwend", str(skips))
+            model += ops_of(r); skips = 0
+        for b in bufs:
+            if first and ov0:
+                skips = ov0
+            first = False
+            r = cli.ask("fws", str(use_stdout), str(support), str(skips), vlib.hx(b))
+            res["evals"] += 1
+            if r == "fuel":
+                fail(res, "corr_fail", "model ran out of fuel", det); return
+            s2, ops = r.split(" ")
+            skips = int(s2)
+            if skips > 0:
+                nz_skipped = True
+            model += ops_of(ops) + [("R", skips)]
+    model += ops_of(cli.ask("fwend", str(skips)))
+    realc = [(k, v if k != "W" else (len(v), hashlib.md5(v).hexdigest())) for k, v in real]
+    if realc != model:
+        i = next((i for i in range(min(len(realc), len(model))) if realc[i] != model[i]), min(len(realc), len(model)))
+        fail(res, "corr_fail", "sparse writer: call trace differs at call %d: code %s, model %s" %
+             (i, realc[i] if i < len(realc) else "end", model[i] if i < len(model) else "end"), det)
+        return
+    # file image: real == plain concatenation (the property) == interpretation of the trace under the POSIX file model
+    total = b"".join(b for bufs in frames for b in bufs)
+    head = ov0 if sparse_mode else 0
+    size = os.path.getsize(of)
+    fd = os.open(of, os.O_RDONLY)
+    try:
+        ok = size == head + len(total) and os.pread(fd, len(total), head) == total and zero_check(fd, 0, head)
+        if not ok:
+            fail(res, "prop_fail", "LZ4IO_fwriteSparse*/fwriteSparseEnd left a file image different from the plain concatenation: size %d, expected %d" %
+                 (size, head + len(total)), det)
+            return
+        # POSIX interpretation of the model's trace
+        pos, end, okm = 0, 0, True
+        for k, v in real:
+            if k == "S":
+                pos += v
+            elif k == "W" and len(v):
+                if os.pread(fd, len(v), pos) != v or not zero_check(fd, end, pos):
+                    okm = False
+                pos += len(v); end = max(end, pos)
+        if not okm or end != size:
+            fail(res, "corr_fail", "file model (seek beyond EOF then write = zero gap) disagrees with the real file image", det)
+            return
+    finally:
+        os.close(fd)
+        os.remove(of)
+    res["stats"]["sp_seq"] += 1
+    res["stats"]["sp_mode_%d_%d" % (support, use_stdout)] += 1
+    if big:
+        res["stats"]["sp_1GB_guard"] += sum(1 for k, v in real if k == "S" and v == GB)
+    if nz_skipped:
+        res["keys"].add(sha(bytes(script) + bytes([support, use_stdout])))
+
+def ops_of(s):
+    if s == "-":
+        return []
+    out = []
+    for t in s.split(","):
+        if t[0] == "S":
+            out.append(("S", int(t[1:])))
+        else:
+            n, h = t[1:].split(":")
+            out.append(("W", (int(n), h)))
+    return out
+
+def cli_oracle(st):
+    if st["cli"] is None:
+        st["cli"] = Oracle(name="cli")
+    return st["cli"]
+
+def sparse_case(st, case, wd, res):
+    rng = random.Random(case["sseed"])
+    for i in range(case["count"]):
+        sparse_one(st, rng, wd, res, big=case.get("big", False))
+
+def setbs_case(st, case, wd, res):
+    pass
+
 def run_case(st, case):
     res = {"evals": 0, "fails": [], "keys": set(), "stats": collections.Counter()}
     kind = case["kind"]
